@@ -213,29 +213,68 @@ def check_exits(ctx) -> None:
         ctx.bad("C04.exits", fn, fn.node, f"{len(problems)} of {cases} exit cases are wrong: " + "; ".join(problems[:2]))
     else:
         ctx.ok("C04.exits", fn, "status x error_value exit table", f"{cases} cases: value only when optimal; error_value when not None (also 0.0); otherwise assert_optimal raises")
-    # assert_optimal: raise dominated only by status != OPTIMAL, class from the map with a default
+    # assert_optimal, evaluated per status: returns for OPTIMAL, raises the mapped class (OptimizationError when the
+    # status has no entry) for everything else
     ao = prog.func("cobra.util.solver", "assert_optimal")
-    raises = [n for n in walk_local(ao.node) if isinstance(n, ast.Raise)]
-    ifs = [n for n in walk_local(ao.node) if isinstance(n, ast.If)]
-    ok = False
-    if len(raises) == 1 and ifs:
-        guard = [a for a in ancestors(raises[0]) if isinstance(a, ast.If)]
-        if len(guard) == 1 and isinstance(guard[0].test, ast.Compare) and isinstance(guard[0].test.ops[0], ast.NotEq) and norm(guard[0].test.comparators[0]).endswith("OPTIMAL") and raises[0] in ast.walk(ast.Module(body=guard[0].body, type_ignores=[])):
-            src = norm(guard[0].test.left)
-            owner, defs = ctx.inf.lookup_name(ao, src) if isinstance(guard[0].test.left, ast.Name) else (None, [])
-            if isinstance(guard[0].test.left, ast.Name) and defs and all("solver.status" in norm(d.value) for d in defs if isinstance(d.value, ast.AST)):
-                ok = True
-            elif "solver.status" in src:
-                ok = True
-    if ok:
-        ctx.ok("C04.exits", ao, raises[0], "raises exactly when the solver status is not OPTIMAL")
+    table = {"infeasible": _Exc("Infeasible"), "unbounded": _Exc("Unbounded")}
+    default = _Exc("OptimizationError")
+    wrong = []
+    for status in (OPT, "infeasible", "unbounded", "time_limit"):
+
+        def on_attr(e, a: ast.Attribute, _s=status):
+            t = norm(a)
+            if t.endswith("solver.status"):
+                return _s
+            if t.endswith("OPTIMAL"):
+                return OPT
+            if t.endswith("OptimizationError"):
+                return default
+            return NotImplemented
+
+        def on_call(e, c: ast.Call):
+            f = c.func
+            if isinstance(f, ast.Attribute) and f.attr in ("get", "__getitem__") and not c.keywords:
+                recv = e.eval(f.value)
+                if isinstance(recv, dict):
+                    args = [e.eval(a) for a in c.args]
+                    if f.attr == "get":
+                        return recv.get(*args)
+                    if args[0] not in recv:
+                        raise EvalRaise("KeyError", c)
+                    return recv[args[0]]
+            return NotImplemented
+
+        env = {ao.params[0]: object(), "OPTIMAL": OPT, "OPTLANG_TO_EXCEPTIONS_DICT": dict(table), "OptimizationError": default}
+        if len(ao.params) > 1:
+            env[ao.params[1]] = "Optimization failed"
+        try:
+            Evaluator(env, on_call=on_call, on_attr=on_attr).run(ao.node.body)
+            got = ("return", None)
+        except EvalReturn as r:
+            got = ("return", r.value)
+        except EvalRaise as r:
+            got = ("raise", r.exc_type)
+        except Unknown as exc:
+            raise AnalysisError(f"C04.exits: assert_optimal cannot be evaluated over the status domain: {exc}")
+        want = ("return", None) if status == OPT else ("raise", table.get(status, default).exc_name)
+        if got != want:
+            wrong.append(f"status {status!r}: {got[0]}s {got[1]} (expected {want[0]} {want[1]})")
+    if wrong:
+        ctx.bad("C04.exits", ao, ao.node, "assert_optimal does not raise exactly when the status is not OPTIMAL, with the mapped class and OptimizationError as default: " + "; ".join(wrong[:2]))
     else:
-        ctx.bad("C04.exits", ao, ao.node, "assert_optimal no longer raises for every non-optimal status (and only then)")
-    gets = [n for n in walk_local(ao.node) if isinstance(n, ast.Call) and isinstance(n.func, ast.Attribute) and n.func.attr == "get" and "OPTLANG_TO_EXCEPTIONS_DICT" in norm(n.func.value)]
-    if gets and len(gets[0].args) == 2 and norm(gets[0].args[1]).endswith("OptimizationError"):
-        ctx.ok("C04.exits", ao, gets[0], "exception class taken from the map with OptimizationError as default")
-    else:
-        ctx.bad("C04.exits", ao, ao.node, "the exception class for a status without a map entry has no OptimizationError default")
+        ctx.ok("C04.exits", ao, "status table", "returns for OPTIMAL; raises the mapped exception class, OptimizationError for a status without an entry (evaluated over 4 statuses)")
+        ctx.ok("C04.exits", ao, "default class", "exception class taken from the map with OptimizationError as default")
+
+
+class _Exc:
+    def __init__(self, name):
+        self.exc_name = name
+
+    def __call__(self, *a, **k):
+        return self
+
+    def __repr__(self):
+        return self.exc_name
 
 
 def _show(o, objective_value) -> str:
@@ -349,7 +388,7 @@ def check_snapshot(ctx) -> None:
         ctx.bad("C04.snapshot", fn, fn.node, "get_solution reads solver values before checking the solver status")
 
 
-def _arg_is_snapshot(ctx, fn: FuncInfo, v: ast.AST):
+def _arg_is_snapshot(ctx, fn: FuncInfo, v: ast.AST, depth: int = 0):
     inf = ctx.inf
     txt = norm(v)
     if txt.endswith("objective.value") or txt.endswith("solver.status"):
@@ -365,7 +404,17 @@ def _arg_is_snapshot(ctx, fn: FuncInfo, v: ast.AST):
             if r is not True:
                 return r
         return True
-    return _local_storage(ctx, fn, v)
+    r = _local_storage(ctx, fn, v)
+    if r is not True and isinstance(v, ast.Name) and depth < 4:
+        # a named intermediate: `flux_series = pd.Series(...)` ... `Solution(fluxes=flux_series)`
+        owner, defs = inf.lookup_name(fn, v.id)
+        if owner is fn and defs and all(d.kind == "assign" and isinstance(d.value, ast.AST) for d in defs):
+            for d in defs:
+                rr = _arg_is_snapshot(ctx, fn, d.value, depth + 1)
+                if rr is not True:
+                    return rr
+            return True
+    return r
 
 
 def _local_storage(ctx, fn: FuncInfo, v: ast.AST):
